@@ -570,7 +570,7 @@ class Variogram(object):
         self._diff = None
 
         # set new values
-        self._values = np.asarray(_y)
+        self._values = np.array(_y, copy=True)
 
         # recalculate the pairwise differences
         if calc_diff:
